@@ -1,6 +1,7 @@
 import RedoModel.Lemmas.Deps
 import RedoModel.Props.C09b
 import RedoModel.Props.C12b
+import RedoModel.Props.C03b
 /-!
 # C12 — Dependency cycles end in an error, never in a hang
 Property theorems only.  Model: `RedoModel/Deps.lean`.  Every function of the model is total
@@ -34,6 +35,126 @@ theorem cyclic_verdict_status (E : Engine) (d : Defects) (cx : Ctx) (fuel t : Na
 
 /-- A cyclic status is never zero: whoever asked gets a failure. -/
 theorem cyclic_is_failure : EXIT_CYCLIC_DEPENDENCY ≠ 0 := by decide
+
+/-- During an out-of-band rebuild (`redo-unlocked t deps…`) the caller holds `t`'s lock, so the first nested
+`redo-ifchange deps…` runs with `t` among the targets under construction (`REDO_CYCLES`).  Hence, if the
+dirtiness check asks to rebuild a list that contains `t` itself first (a dependency chain leading back to `t`), the
+job does not wait for its own lock: it ends with a non-zero status.  Any defect switches, any engine level. -/
+theorem oob_target_is_under_construction (d : Defects) (n : Nat) (cx : Ctx) (fuel t : Nat) (w : World) (ts : List Nat)
+    (hno : cx.noOob = false) (hs : (shouldBuild cx fuel t w).1 = some (.need ts)) (ht : t ∈ ts) :
+    ∃ rv w', buildJob (engine d n) d cx fuel t w = (.done rv, w') ∧ rv ≠ 0 := by
+  unfold buildJob
+  dsimp only
+  generalize shouldBuild cx fuel t w = sb at hs
+  obtain ⟨o, w1⟩ := sb
+  dsimp only at hs
+  subst hs
+  simp only [hno, Bool.false_eq_true, if_false]
+  have hmem : t ∈ (if w1.oobRev then ts.eraseDups.reverse else ts.eraseDups) := by
+    split
+    · exact List.mem_reverse.2 (List.mem_eraseDups.2 ht)
+    · exact List.mem_eraseDups.2 ht
+  generalize (if w1.oobRev then ts.eraseDups.reverse else ts.eraseDups) = ts' at hmem
+  have hnz := C12.cycle_member_fails_cmd d n
+    { cx with noOob := true, unlocked := false, isRedo := false, cycles := t :: cx.cycles,
+              parent := if d.oobRecordsDepsOnCaller then cx.parent else none } ts' w1 rfl
+    ⟨t, hmem, List.mem_cons_self⟩
+  generalize (engine d n).ifchangeCmd _ ts' w1 = r at hnz
+  obtain ⟨rv, w2⟩ := r
+  split
+  · rename_i heq
+    cases heq
+    exact absurd rfl hnz
+  · rename_i heq
+    cases heq
+    exact ⟨rv, w2, rfl, hnz⟩
+
+/-- The environment of `redo-unlocked`'s first `redo-ifchange`. -/
+def oobCtx1 (d : Defects) (cx : Ctx) (t : Nat) : Ctx :=
+  { cx with noOob := true, unlocked := false, isRedo := false, cycles := t :: cx.cycles,
+            parent := if d.oobRecordsDepsOnCaller then cx.parent else none }
+
+/-- The general shape, for any nested engine `E`: in the out-of-band branch the first nested command runs in a
+locked context whose `REDO_CYCLES` is `t :: cx.cycles`, on the requested list (duplicates erased, possibly reversed);
+when it fails, its status is the job's and the second phase does not happen. -/
+theorem oob_first_command_sees_target (E : Engine) (d : Defects) (cx : Ctx) (fuel t : Nat) (w : World) (ts : List Nat)
+    (hno : cx.noOob = false) (hs : (shouldBuild cx fuel t w).1 = some (.need ts)) :
+    ∃ cx1 ts', cx1.cycles = t :: cx.cycles ∧ cx1.unlocked = false ∧ cx1.noOob = true ∧ cx1.runid = cx.runid ∧
+      cx1.crash = cx.crash ∧ (∀ x, x ∈ ts' ↔ x ∈ ts) ∧
+      ((E.ifchangeCmd cx1 ts' (shouldBuild cx fuel t w).2).1 ≠ 0 →
+        buildJob E d cx fuel t w = (.done (E.ifchangeCmd cx1 ts' (shouldBuild cx fuel t w).2).1,
+          (E.ifchangeCmd cx1 ts' (shouldBuild cx fuel t w).2).2)) := by
+  refine ⟨oobCtx1 d cx t,
+    (if (shouldBuild cx fuel t w).2.oobRev then ts.eraseDups.reverse else ts.eraseDups), rfl, rfl, rfl, rfl, rfl, ?_, ?_⟩
+  · intro x
+    split
+    · rw [List.mem_reverse, List.mem_eraseDups]
+    · rw [List.mem_eraseDups]
+  · unfold buildJob oobCtx1
+    dsimp only
+    generalize shouldBuild cx fuel t w = sb at hs
+    obtain ⟨o, w1⟩ := sb
+    dsimp only at hs
+    subst hs
+    simp only [hno, Bool.false_eq_true, if_false]
+    generalize E.ifchangeCmd _ _ w1 = r
+    obtain ⟨rv, w2⟩ := r
+    intro hnz
+    split
+    · rename_i heq
+      cases heq
+      exact absurd rfl hnz
+    · rename_i heq
+      cases heq
+      rfl
+
+/-! Non-vacuity: `top` (5) depends on the checksummed `mid` (3); `mid.do` (2) is then rewritten so that it asks for
+`top`.  The next `redo-ifchange top` takes the out-of-band path (`need [3]`), `mid` runs below `redo-unlocked`, its
+request for `top` is refused (208) because `top` is under construction, and the command fails instead of waiting. -/
+namespace ExOob
+
+def backSc : Script := { ifchange := [[5]], reads := [], tag := 1, stamp := 1 }
+
+def hist : List UserOp := [.write 1 0, .write 2 1, .write 4 2,
+  .setProg (srcContent 1) C03.midRead, .setProg (srcContent 2) C03.topSc, .setProg (srcContent 3) backSc,
+  .cmd (.ifchange [5] false), .write 2 3]
+
+def wB : World := hist.foldl (fun w op => (applyOp {} 0 op w).2) (initWorld C03.csRules)
+
+theorem eraseDups_one (a : Nat) : [a].eraseDups = [a] := by simp [List.eraseDups_cons]
+
+/-- Evaluation by rewriting (the kernel cannot unfold `List.mergeSort`). -/
+macro "eval_oob" : tactic => `(tactic|
+  simp (config := { zeta := true, zetaHave := true, decide := true, maxSteps := 4000000 }) [runCmd, allocRun, applyOp,
+    initWorld, engine, runTargets, buildJob, shouldBuild, isDirty, goDeps, startSelf, recordNewState, runScript,
+    runScript.cmds, runScript.conds, ifchangeWith, findDoFile, addDep, addKnown, setRec, setFile, ev, getRec, readStamp,
+    existsF, newNode, srcContent, outContent, depsWithRecs, depsOf, zapDeps1, zapDeps2, updateStamp, setChanged,
+    setStatic, setFailed, setOverride, detectOverride, isCheckedR, isChangedR, isFailedR, alwaysId, mergeSort_pair,
+    CRASHED, EXIT_CYCLIC_DEPENDENCY, EXIT_TARGET_FAILED, EXIT_FAILURE, stampRec, eraseDups_one])
+
+/- The hypotheses of `oob_target_…`/`oob_first_command_sees_target` are met: the verdict for `top` is `need [mid]`. -/
+set_option linter.unusedSimpArgs false in
+set_option maxRecDepth 8000 in
+set_option maxHeartbeats 4000000 in
+example : (shouldBuild { runid := 2 } 4 5 (addKnown wB 5)).1 = some (.need [3]) := by
+  unfold wB hist C03.csRules C03.midRead C03.topSc backSc
+  eval_oob
+
+def summ (r : Result × World) := (r.1.status, r.2.trace.take 1, (r.2.recs 3).failed, (r.2.recs 5).failed)
+
+/- The command fails; only `mid` ran in it (and is recorded as failed); `top` was not started. -/
+set_option linter.unusedSimpArgs false in
+set_option maxRecDepth 8000 in
+set_option maxHeartbeats 4000000 in
+example : summ (runCmd {} 0 (.ifchange [5] false) wB) = (1, [.ran 3], some 2, none) := by
+  unfold summ wB hist C03.csRules C03.midRead C03.topSc backSc
+  eval_oob
+
+/-- The refused request: what `mid`'s script issues below the first phase (`REDO_CYCLES = mid top`). -/
+example : ((engine {} 3).ifchangeCmd { runid := 2, parent := some 3, cycles := [3, 5], noOob := true } [5] wB).1 = 208 := by
+  decide +kernel
+
+end ExOob
 
 /-! ### At -j>1: the wait-for protocol (model `RedoModel/Waits.lean`, guarded acceptor `WaitsG`) -/
 
